@@ -42,6 +42,7 @@ func CheckSession(c Case) (vs hx.Vs, classes []string) {
 		vs.Add("harness:resolve", "%v", rerr)
 		return
 	}
+	c.session = true
 	tabs := tables(c)
 	yaml := pgprog.SchemaYAML(tabs)
 	s, err := pgsess.Start(pgsess.Config{SchemaYAML: yaml, KeyStore: w.KS, ClientID: w.Alice, Tables: pgprog.Defs(tabs)})
@@ -218,12 +219,20 @@ func CheckSession(c Case) (vs hx.Vs, classes []string) {
 		return
 	}
 	if err != nil {
-		vs.Add("session-broken:select", "%.200s: %v", r.SQL, err)
+		sg := "session-broken:select"
+		if cls := openStatementClass(c, "pg"); cls != "" {
+			sg = cls
+		}
+		vs.Add(sg, "%.200s: %v", r.SQL, err)
 		return
 	}
 	emitted := ""
 	if recv := s.DB.Received(); len(recv) > 0 {
 		emitted = recv[len(recv)-1].SQL
+	}
+	if cls := openStatementClass(c, "pg"); cls != "" {
+		vs.Add(cls, "statement of an open class (not judged further)\n  sent:    %.300s\n  emitted: %.400s", r.SQL, emitted)
+		return vs, classes
 	}
 	// the search terms (and the stored plaintexts) never reach the database in clear
 	raw := s.DB.Raw()
@@ -361,7 +370,7 @@ func CheckSession(c Case) (vs hx.Vs, classes []string) {
 }
 
 func TestSearchSessions(t *testing.T) {
-	R.Rule("TestSearchSessions", "whole PostgreSQL sessions through acra's real proxy (internal/pgsess): table t(id, s searchable, p, n) + u(id, ref, tag); the 1-12 generated plaintexts (as TestRewritePG) are INSERTed in 1..n statements over the simple or extended protocol (text/binary parameters, declared or inferred types, literal spellings, casts), then one SELECT id, s FROM t [AS q] [JOIN u ..] WHERE cond (condition forms as TestRewritePG; placeholders in text and binary format, mixed with placeholders on plain columns) is executed; the typed fake database evaluates the rewritten condition literally. Oracles: every stored value starts with the reference index of its plaintext; multiset of returned ids = model; every returned row carries the plaintext (decoded by an independent codec as the described type); no plaintext marker of any stored or searched value in the bytes the database received; after swapping the indexes of two rows with different plaintexts in the store, the owner receives neither plaintext for them. Non-trivial = a searched value is present AND some row is excluded. I/O deadlines = inconclusive")
+	R.Rule("TestSearchSessions", "whole PostgreSQL sessions through acra's real proxy (internal/pgsess): table t(id, s searchable, p, n) + u(id, ref, tag); the 1-12 generated plaintexts (as TestRewritePG) are INSERTed in 1..n statements over the simple or extended protocol (text/binary parameters, declared or inferred types, literal spellings, casts), then one SELECT id, s FROM t [AS q] [JOIN u ..] WHERE cond (condition forms as TestRewritePG incl. IS [NOT] DISTINCT FROM and t read through a derived table (as right operand of a join: open known finding derived-table-as-right-join-operand:pg); placeholders in text and binary format, mixed with placeholders on plain columns) is executed; the typed fake database evaluates the rewritten condition literally. Oracles: every stored value starts with the reference index of its plaintext; multiset of returned ids = model; every returned row carries the plaintext (decoded by an independent codec as the described type); no plaintext marker of any stored or searched value in the bytes the database received; after swapping the indexes of two rows with different plaintexts in the store, the owner receives neither plaintext for them. Non-trivial = a searched value is present AND some row is excluded. I/O deadlines = inconclusive")
 	hx.Checks(70, 2000)
 	rapid.Check(t, func(rt *rapid.T) {
 		c := genCase(rt, genOpts{session: true})
